@@ -1236,6 +1236,10 @@ func c13Gen(ctx *core.Ctx) {
 		count int
 	}
 	plans := []plan{{"fifo", 120}, {"fifomap", 380}, {"cmap", 380}, {"ctx", 320}, {"outer", 110}}
+	// cmap scripts that delete keys in use leave goroutines parked for ever on orphaned mutexes;
+	// every later quiescence test pays for them (runtime.Stack walks all goroutines), so these
+	// scripts are generated in their slot (same PRNG stream) but RUN last.
+	var deferred []func()
 	for _, p := range plans {
 		for i := 0; i < p.count*mul; i++ {
 			g := genCfg{lock: p.lock, n: r.Range(2, 8), keys: r.Range(1, 3), steps: r.Range(4, 18)}
@@ -1262,8 +1266,16 @@ func c13Gen(ctx *core.Ctx) {
 			if p.lock == "outer" {
 				in.GraceMs = 50
 			}
-			runScript(ctx, in, genScript(r.Fork(), g))
+			fr := r.Fork()
+			if g.unsafeDel {
+				deferred = append(deferred, func() { runScript(ctx, in, genScript(fr, g)) })
+				continue
+			}
+			runScript(ctx, in, genScript(fr, g))
 		}
+	}
+	for _, f := range deferred {
+		f()
 	}
 }
 
